@@ -44,7 +44,69 @@ def _digests(jobs, workers):
   return out
 
 
+def run_models():
+  """Sanity of the trusted base: the reference models against fixed vectors
+  and against independent library routines."""
+  import random
+  import mpmath
+  from scipy import special
+  from dst import artifacts as A
+  from dst import engine_c as C
+  from dst import engine_d as D
+  bad = 0
+  # java.util.Random / BigInteger(n, rnd): vectors produced by a JDK (they are
+  # also the expected values of upstream's rng_test.testJavaRandom)
+  jdk = [0, 0xFFFB, 0x4FFFB5CF5, 0xCFFFB5CF57358, 0x1CFFFB5CF573588FF9]
+  for i, want in enumerate(jdk):
+    got = D.model_java_biginteger(i * 17 + 1, 0x123456789ABD)
+    if got != want:
+      bad += 1
+      print("MODEL-ERROR java BigInteger n=%d: %x != %x" % (i * 17 + 1, got,
+                                                           want))
+  # continuing stream == fresh stream for the first draw
+  jr = A.JavaUtilRandom(42)
+  if jr.biginteger(100) != D.model_java_biginteger(100, 42):
+    bad += 1
+    print("MODEL-ERROR JavaUtilRandom first draw")
+  # Fisher closed form against the regularised incomplete gamma function
+  r = random.Random(1)
+  for _ in range(300):
+    pv = [r.random() ** r.choice([1, 3, 8]) for _ in range(r.randint(2, 9))]
+    a = float(C.fisher(pv))
+    b = float(special.gammaincc(len(pv), float(-sum(mpmath.log(p) for p in pv))))
+    if abs(a - b) > 1e-9 * max(a, b, 1e-300) and abs(a - b) > 1e-15:
+      bad += 1
+      print("MODEL-ERROR fisher %r: %r vs %r" % (pv, a, b))
+  # independent affine arithmetic against the library's Jacobian Multiply
+  from paranoid_crypto.lib import ec_util
+  for cid, c in sorted(A.curves().items()):
+    lib = ec_util.CURVE_FACTORY[cid]
+    for _ in range(3):
+      k = r.randrange(1, int(c.n))
+      p1 = c.mul(k)
+      p2 = lib.Multiply(lib.g, k)
+      if (int(p1[0]), int(p1[1])) != (int(p2[0]), int(p2[1])):
+        bad += 1
+        print("MODEL-ERROR MiniCurve.mul on %s" % c.name)
+    if c.mul(int(c.n)) is not None or not c.on_curve(c.g):
+      bad += 1
+      print("MODEL-ERROR curve parameters of %s" % c.name)
+  # signing: s*k = z + r*d (mod n)
+  c = A.curve_by_name("secp256r1")
+  iss = A.Issuer(r, c, "T")
+  k = r.randrange(1, int(c.n))
+  a = iss.make(r, k, "t", True, hash_len=32)
+  z = A.transform_order_len(c, int(a["h"], 16), 256)
+  if (int(a["s"], 16) * k - z - int(a["r"], 16) * iss.d) % int(c.n) != 0:
+    bad += 1
+    print("MODEL-ERROR ECDSA signing equation")
+  print("selftest models: %d errors" % bad)
+  return 0 if bad == 0 else 2
+
+
 def run(args):
+  if args.what == "models":
+    return run_models()
   props = [p for p in args.properties.split(",") if p] or sorted(checks.PLANS)
   seed = int(os.environ.get("VERIF_SEED", "0"))
   out = {}
